@@ -156,13 +156,18 @@ class Portfolio(IncrementalTrackingSolver):
             _p.start()
             _debug("Started instance of %s", sname)
 
+        failed = 0 # Number of solvers that reported an exception
         while True:
             (sname, res) = signaling_queue.get(block=True)
             if isinstance(res, BaseException):
-                if cast(PortfolioOptions, self.options).exit_on_exception:
-                    # Close all solvers and raise exception
+                failed += 1
+                if cast(PortfolioOptions, self.options).exit_on_exception or \
+                   failed == len(processes):
+                    # Close all solvers and raise exception. If all
+                    # the solvers failed, nobody is left to answer.
                     for p in processes:
                         p.terminate()
+                    self._ctrl_pipe = None # No solver is listening
                     raise res
                 else:
                     continue
